@@ -3107,14 +3107,9 @@ impl<'a> Tyck<'a> for TyEnvT<su::PatId> {
                         )?
                     };
                     let su::Ctor(ctor, args) = pat;
-                    use std::collections::HashMap;
-                    let arm_ty = match tycker.statics.datas[data_id]
-                        .clone()
-                        .into_iter()
-                        .collect::<HashMap<_, _>>()
-                        .get(&ctor)
-                        .cloned()
-                    {
+                    // the same lookup as the constructor term: on a repeated name both
+                    // sides must agree on which declaration it denotes
+                    let arm_ty = match tycker.statics.datas[data_id].get(&ctor) {
                         | Some(ty) => ty,
                         | None => tycker.err_k(
                             TyckError::UnknownDataConstructor(ctor.clone()),
